@@ -6,7 +6,11 @@ inside one lock region that started at the last lock acquisition on the path; (R
 pushes onto the ready heap (QueueInner::insert, the per-stream waker's wake_by_ref) pushes on every path (no
 early exit that drops a wake), inspects the waker slot afterwards and wakes it when it is Some, under the lock
 (insert is only reachable through a guard); (R06.3) a re-queued or inserted peer gets a fresh ticket from the
-atomic counter, and the heap order is the reversed ticket order (min-ticket first), PartialOrd delegating to Ord.
+atomic counter, and the heap order is the reversed ticket order (min-ticket first), PartialOrd delegating to Ord;
+(R06.4) one poll_next call polls inner streams a bounded number of times (counter on the Pending arm; exit wakes the caller's
+own waker and returns Pending); (R06.5) integrity of the shared state over the whole crate (who-may-call): ready events leave
+the heap only by pop (served) or clear (with the stream table, at shutdown) - never retain/drain/... which would drop a
+wake-up some peer is owed - and the ticket counter is only read and advanced by a positive constant (never stored/reset).
 Does NOT decide the numeric starvation bound nor that the runtime delivers the wake."""
 from ..sym import show, walk_expr
 from ..common import short, trait_impls
@@ -22,6 +26,7 @@ RULES = {
     "R06.2": "push-then-wake under the lock on every path of insert / wake_by_ref; insert only called through a guard",
     "R06.3": "fresh ticket (fetch_add) on every heap push of a delivered/inserted peer; Ord::cmp reversed on tickets; PartialOrd = Some(cmp)",
     "R06.4": "bounded number of inner polls per poll_next call: counter on the Pending arm, exit = wake own waker + Pending",
+    "R06.5": "queue state integrity: ready events leave the heap only by pop (served) or clear (shutdown); the ticket counter only ever advances",
 }
 
 
@@ -188,6 +193,59 @@ def run(ctx, f, rep):
     around = [(b.path, fn["name"]) for b in f.bodies if "::test" not in b.path for bb, t, fn in b.calls()
               if fn and fn["name"] in ("data_ptr", "make_guard_unchecked", "force_unlock", "force_unlock_fair", "get_mut", "into_inner", "raw") and "lock_api::Mutex" in fn["path"]]
     rep.check(not around, "R06.2", "R06.2|no-access-around-the-lock", "nothing reaches around a parking_lot Mutex (data_ptr / force_unlock / get_mut / into_inner): %s" % around)
+    # R06.5 integrity of the shared state, over every function of the crate (who-may-call): a ready event is a wake-up some peer
+    # is owed - it may leave the heap only by being served (pop) or with the whole queue (clear); tickets order the heap, so
+    # the counter may only advance (a reset makes old parked tickets lose to every new one)
+    heap_ops = {}
+    ctr_ops = {}
+    for b in f.bodies:
+        if "::test" in b.path:
+            continue
+        for bb, t, fn in b.calls():
+            if not fn or not t["args"]:
+                continue
+            a0 = t["args"][0]
+            e0 = b.expr_of_operand(a0)
+            on_heap = "BinaryHeap" in fn["path"] and any(isinstance(x, tuple) and x and x[0] == "field" and x[2] == names["heap"] for x in walk_expr(e0))
+            on_ctr = "Atomic" in fn["path"] and names.get("counter") and any(isinstance(x, tuple) and x and x[0] == "field" and x[2] == names["counter"] for x in walk_expr(e0))
+            if on_heap:
+                heap_ops.setdefault(fn["name"], []).append((b, bb))
+            if on_ctr:
+                ctr_ops.setdefault(fn["name"], []).append((b, bb, t))
+    for b in f.bodies:
+        if "::test" in b.path:
+            continue
+        for bb, blk in enumerate(b.blocks):
+            for st in blk["stmts"]:
+                if st["k"] == "assign" and st["place"]["p"] and st["place"]["p"][-1]["k"] == "field" and \
+                        st["place"]["p"][-1].get("name") in (names["heap"], names.get("counter")) and ipath.split("::")[-1] in str(st["place"]["p"][-1].get("ty", "")) + str(b.j["locals"][st["place"]["l"]]["ty"]) + b.path:
+                    rep.bad("R06.5", "R06.5|%s|field-replaced|%s" % (b.path, st["place"]["p"][-1].get("name")),
+                            "%s assigns a new value to the queue's %s: queued wake-ups / issued tickets are discarded" % (b.path, st["place"]["p"][-1].get("name")), b.loc(bb))
+    HEAP_OK = {"push", "pop", "peek", "len", "is_empty", "clear", "iter", "new", "capacity", "reserve"}
+    bad_heap = {n: v for n, v in heap_ops.items() if n not in HEAP_OK}
+    for n, sites in sorted(bad_heap.items()):
+        for (b, bb) in sites:
+            rep.bad("R06.5", "R06.5|%s|heap-%s" % (b.path, n), "%s removes or rewrites ready events with BinaryHeap::%s: a queued wake-up of some peer is dropped "
+                    "(events may leave the heap only by pop or clear)" % (b.path, n), b.loc(bb))
+    if not bad_heap:
+        rep.ok("R06.5", "R06.5|heap-only-pop-or-clear", "ready events leave the heap only by pop / clear (operations seen: %s)" % sorted(heap_ops))
+    rep.floor("R06.5", "operations on the ready heap", sum(len(v) for v in heap_ops.values()), 3)
+    clears = [(b, bb) for (b, bb) in heap_ops.get("clear", [])]
+    for (b, bb) in clears:
+        alone = any(fn2 and fn2["name"] == "clear" and "HashMap" in fn2["path"] for bb2, t2, fn2 in b.calls())
+        rep.check(alone, "R06.5", "R06.5|%s|clear-with-streams" % b.path, "the heap is cleared only together with the stream table (whole-queue shutdown) in %s" % b.path, b.loc(bb))
+    CTR_OK = {"fetch_add", "load", "new"}
+    bad_ctr = {n: v for n, v in ctr_ops.items() if n not in CTR_OK}
+    for n, sites in sorted(bad_ctr.items()):
+        for (b, bb, t) in sites:
+            rep.bad("R06.5", "R06.5|%s|counter-%s" % (b.path, n), "%s changes the ticket counter with %s: tickets of events already parked or queued no longer "
+                    "compare correctly with new ones (the counter may only advance)" % (b.path, n), b.loc(bb))
+    for (b, bb, t) in ctr_ops.get("fetch_add", []):
+        inc = b.expr_of_operand(t["args"][1]) if len(t["args"]) > 1 else None
+        rep.check(inc is not None and inc[0] == "int" and inc[1] >= 1, "R06.5", "R06.5|%s|counter-advances" % b.path, "the ticket counter advances by a positive constant (%s)" % (show(inc) if inc else None), b.loc(bb))
+    if not bad_ctr:
+        rep.ok("R06.5", "R06.5|counter-only-advances", "the ticket counter is only read and advanced (operations seen: %s)" % sorted(ctr_ops))
+    rep.floor("R06.5", "fetch_add sites on the ticket counter", len(ctr_ops.get("fetch_add", [])), 2)
     # ordering
     cmps = [b for b in f.bodies if b.j.get("name") == "cmp" and (b.j.get("impl_trait") or "").endswith("cmp::Ord") and "fair_queue" in b.path]
     rep.floor("R06.3", "Ord::cmp of the ready event", len(cmps), 1)
